@@ -30,6 +30,13 @@ def World.hcount (w : World) (q : Pid) (r : Nat) : Nat := (w.proc q).held.count 
     World.rv ⟨ev, evW, procs, guards, w.res, pools, bufs, oqs, pqs, conds, flags, gvars, log, fault, d⟩ r
       = w.rv r := rfl
 
+/-- the processes whose end process `p` is registered to be told about (the `.proc` entries of its awaits) -/
+def World.pa (w : World) (p : Pid) : List Pid :=
+  (w.proc p).awaits.filterMap fun a => match a with | .proc q => some q | _ => none
+
+theorem pa_congr {w w' : World} (h : ∀ q, (w'.proc q).awaits = (w.proc q).awaits) (q : Pid) : w'.pa q = w.pa q := by
+  unfold World.pa; rw [h]
+
 theorem rv_congr {w w' : World} (h : w'.res = w.res) (r : Nat) : w'.rv r = w.rv r := by
   unfold World.rv; rw [h]
 
@@ -170,11 +177,14 @@ macro "world_frame " pre:ident " : " e:term " ~ " w0:term " keeps " fs:ident* " 
       let namep := mkIdent (Name.mkSimple (pre.getId.toString ++ "_proc"))
       let namen := mkIdent (Name.mkSimple (pre.getId.toString ++ "_np"))
       let nameh := mkIdent (Name.mkSimple (pre.getId.toString ++ "_hcount"))
+      let namepa := mkIdent (Name.mkSimple (pre.getId.toString ++ "_pa"))
       `(@[simp] theorem $name : $proj $e = $proj $w0 := by $t
         @[simp] theorem $namep (q : Pid) : World.proc $e q = World.proc $w0 q := proc_congr (by $t) q
         @[simp] theorem $namen : (World.procs $e).size = (World.procs $w0).size := np_congr (by $t)
         @[simp] theorem $nameh (q : Pid) (r : Nat) : World.hcount $e q r = World.hcount $w0 q r :=
-          hcount_congr (fun q => congrArg Proc.held (proc_congr (by $t) q)) q r)
+          hcount_congr (fun q => congrArg Proc.held (proc_congr (by $t) q)) q r
+        @[simp] theorem $namepa (q : Pid) : World.pa $e q = World.pa $w0 q :=
+          pa_congr (fun q => congrArg Proc.awaits (proc_congr (by $t) q)) q)
     else if f.getId == `res then
       let namer := mkIdent (Name.mkSimple (pre.getId.toString ++ "_rv"))
       `(@[simp] theorem $name : $proj $e = $proj $w0 := by $t
@@ -200,6 +210,11 @@ macro "proc_frame " pre:ident " : " e:term " ~ " w0:term " keeps " fs:ident* " b
       `(@[simp] theorem $name ($q : Pid) : $proj (World.proc $e $q) = $proj (World.proc $w0 $q) := by $t
         @[simp] theorem $nameh ($q : Pid) (r : Nat) : World.hcount $e $q r = World.hcount $w0 $q r :=
           hcount_congr (fun $q => by $t) $q r)
+    else if f.getId == `awaits then
+      let namepa := mkIdent (Name.mkSimple (pre.getId.toString ++ "_pa"))
+      `(@[simp] theorem $name ($q : Pid) : $proj (World.proc $e $q) = $proj (World.proc $w0 $q) := by $t
+        @[simp] theorem $namepa ($q : Pid) : World.pa $e $q = World.pa $w0 $q :=
+          pa_congr (fun $q => by $t) $q)
     else
       `(@[simp] theorem $name ($q : Pid) : $proj (World.proc $e $q) = $proj (World.proc $w0 $q) := by $t)
   return ⟨mkNullNode cmds⟩
